@@ -60,6 +60,7 @@ func (x *sess) step(input string) stepRec {
 	defer func() { eval.VerifCacheOff = false }()
 	x.out.Reset()
 	cont, panicked, errs, _ := repl.EvalOne(context.Background(), x.s, input, &x.out, x.opts)
+	observe("step", x.out.String(), strings.Join(errs, "\x00"))
 	return stepRec{out: x.out.String(), errs: errs, panicked: panicked, cont: cont}
 }
 
@@ -69,6 +70,7 @@ func (x *sess) stepCtx(ctx context.Context, input string) stepRec {
 	defer func() { eval.VerifCacheOff = false }()
 	x.out.Reset()
 	cont, panicked, errs, _ := repl.EvalOne(ctx, x.s, input, &x.out, x.opts)
+	observe("step", x.out.String(), strings.Join(errs, "\x00"))
 	return stepRec{out: x.out.String(), errs: errs, panicked: panicked, cont: cont}
 }
 
